@@ -230,7 +230,8 @@ pub fn check(ctx: &mut Ctx, spec: &RunSpec, ex: &Execution) -> (Vec<Violation>, 
             return (viol, probes);
         }
         Outcome::Err(e) => {
-            let faulted = ex.open_fired.error_faults() > 0 || ex.open_fired.eintr > 0;
+            // EINTR alone excuses nothing: every read path retries it (8a8dd68)
+            let faulted = ex.open_fired.error_faults() > 0;
             if perfect_open && !faulted {
                 viol.push(Violation {
                     class: "spec".into(),
@@ -288,7 +289,7 @@ pub fn check(ctx: &mut Ctx, spec: &RunSpec, ex: &Execution) -> (Vec<Violation>, 
             Some(Ok(d)) => d,
             _ => continue, // the sheet cannot be read under the default option either
         };
-        let faulted = rec.fired.error_faults() > 0 || rec.fired.eintr > 0;
+        let faulted = rec.fired.error_faults() > 0;
         match (&rec.outcome, &rec.range) {
             (Outcome::Ok(_), Some(r)) => match rec.header {
                 None => {
